@@ -37,7 +37,10 @@ from . import conf, ircutils, log, registry, unpreserve, utils, world
 from .utils import minisix
 
 def isCapability(capability):
-    return len(capability.split(None, 1)) == 1
+    # A capability is a single word: no whitespace inside it, and none around it
+    # either (users.conf/channels.conf are line-oriented and the reader strips
+    # leading blanks, so ' owner' would come back as 'owner').
+    return capability.split() == [capability]
 
 def fromChannelCapability(capability):
     """Returns a (channel, capability) tuple from a channel capability."""
